@@ -77,15 +77,18 @@ struct Trial<'a> {
     ctx: &'a Arc<RunCtx>,
     case: &'a Case,
     cl: Cluster,
-    /// highest index acknowledged to a leader (success response released) or
-    /// accepted as leader (propose returned Ok)
-    acked_upto: u64,
+    /// the entries acknowledged to a leader (success response released) or accepted
+    /// as leader (propose returned Ok), as they were when acknowledged; entries the
+    /// node later dropped in memory through a conflict truncation are no longer
+    /// required (a new leader may legitimately overwrite uncommitted entries)
+    acked: Vec<Ent>,
     /// votes promised in released messages: term -> candidate
     votes: BTreeMap<u64, String>,
     /// highest term put into any released message
     max_term_sent: u64,
     payload_seq: u64,
     tag: u64,
+    disk_faults_at_start: u64,
 }
 
 fn lcp(a: &[Ent], b: &[Ent]) -> usize {
@@ -97,7 +100,8 @@ impl<'a> Trial<'a> {
         // each trial gets its own node directory name so files never mix
         let (cl, r) = Cluster::new_partial(ctx, 3, raft_cfg(case), true, &[]);
         let _ = r;
-        let mut t = Trial { ctx, case, cl, acked_upto: 0, votes: BTreeMap::new(), max_term_sent: 0, payload_seq: tag * 1000, tag };
+        let mut t = Trial { ctx, case, cl, acked: Vec::new(), votes: BTreeMap::new(), max_term_sent: 0, payload_seq: tag * 1000, tag, disk_faults_at_start: 0 };
+        t.disk_faults_at_start = ctx.lock().faults.iter().filter(|(k, _)| k.starts_with("disk_")).map(|(_, v)| *v).sum();
         // fresh WAL file per trial, nothing armed from a previous trial
         ctx.disarm_crash();
         ctx.clear_faults();
@@ -127,6 +131,8 @@ impl<'a> Trial<'a> {
     /// Record the promises contained in the messages the node released in this step.
     fn release_outputs(&mut self) -> Result<(), Violation> {
         let img = self.node_image();
+        let keep = lcp(&self.acked, &img.log);
+        self.acked.truncate(keep);
         for m in self.cl.drain_inflight() {
             if m.from != NODE {
                 continue;
@@ -147,7 +153,10 @@ impl<'a> Trial<'a> {
                     self.max_term_sent = self.max_term_sent.max(r.term);
                     if r.success {
                         // bounded by what it held
-                        self.acked_upto = self.acked_upto.max(r.match_index.min(img.log.len() as u64));
+                        let m = (r.match_index as usize).min(img.log.len());
+                        if m > self.acked.len() {
+                            self.acked = img.log[..m].to_vec();
+                        }
                     }
                 },
                 Message::AppendEntries(a) => {
@@ -264,7 +273,13 @@ impl<'a> Trial<'a> {
                 self.ctx.event(&format!("propose -> {:?}", r.as_ref().map_err(|e| e.to_string())));
                 if let Ok(idx) = r {
                     if !self.ctx.is_dead(NODE) {
-                        self.acked_upto = self.acked_upto.max(idx);
+                        let now = self.node_image();
+                        let keep = lcp(&self.acked, &now.log);
+                        self.acked.truncate(keep);
+                        let m = (idx as usize).min(now.log.len());
+                        if m > self.acked.len() {
+                            self.acked = now.log[..m].to_vec();
+                        }
                         self.ctx.probe("proposed_as_leader");
                     }
                 }
@@ -332,22 +347,34 @@ impl<'a> Trial<'a> {
         // "and with every log entry it had acknowledged to a leader or accepted as leader"
         let cp = lcp(&a.log, &b.log);
         let bound = if torn { cp } else { a.log.len() };
-        let req = (self.acked_upto as usize).min(bound);
-        if r.log.len() < req || r.log[..req] != a.log[..req] {
-            let k = lcp(&r.log, &a.log);
+        let req = lcp(&self.acked, &a.log).min(bound);
+        if r.log.len() < req || r.log[..req] != self.acked[..req] {
+            let k = lcp(&r.log, &self.acked);
             return Err(Violation {
                 class: "acknowledged-entry-lost".into(),
                 detail: format!(
-                    "{what}: node had acknowledged/accepted entries up to index {}, recovered log has {} entries and first differs from the pre-crash log at index {} (pre-crash log {} entries)",
-                    self.acked_upto,
+                    "{what}: node had acknowledged/accepted {} entries ({} still required), recovered log has {} entries and first differs from the acknowledged ones at index {}: acknowledged {:?}, recovered {:?}",
+                    self.acked.len(),
+                    req,
                     r.log.len(),
                     k + 1,
-                    a.log.len()
+                    self.acked.get(k),
+                    r.log.get(k)
                 ),
             });
         }
-        // no entry out of nowhere: every recovered entry was in memory at that index
+        // no entry out of nowhere: every recovered entry was in memory at that index.
+        // Relaxation, only when an injected disk error fired in this incarnation: an
+        // append whose write reached the file but whose call reported an error (EIO on
+        // the fsync, say) was rolled back in memory and refused to the caller; Raft
+        // allows such an entry to survive, and the statement does not forbid it.
+        let disk_faults: u64 = self.ctx.lock().faults.iter().filter(|(k, _)| k.starts_with("disk_")).map(|(_, v)| *v).sum();
+        let faulted = disk_faults > self.disk_faults_at_start;
+        self.disk_faults_at_start = disk_faults;
         for (k, e) in r.log.iter().enumerate() {
+            if faulted && k >= req {
+                break;
+            }
             let ok = a.log.get(k) == Some(e) || (torn && b.log.get(k) == Some(e));
             if !ok {
                 return Err(Violation {
@@ -357,7 +384,8 @@ impl<'a> Trial<'a> {
             }
         }
         // the promises continue from the recovered state
-        self.acked_upto = self.acked_upto.min(r.log.len() as u64);
+        let keep = lcp(&self.acked, &r.log);
+        self.acked.truncate(keep);
         Ok(())
     }
 
